@@ -83,6 +83,10 @@ static int search_palette_sections( int16_t *buf, int size, int **palette_restar
     int *restart_pos;
     int max_palettes = round_up_divide(size, 64);
     *palette_restart_positions = NULL;
+    if (size <= 0) {
+        // Empty stream: there are no sections (and no room for the first restart position below)
+        return 0;
+    }
 
     // Preliminary allocation of sufficient size
     restart_pos = (int*)malloc( max_palettes*sizeof(int) );
